@@ -114,13 +114,17 @@ def run_bounded(prop, tier, seed, functions=None):
     rt = VERIF / "runtime" / "rt.py"
     if not rt.exists():
         return None
-    out = VERIF / "work" / f"{prop}_bounded.json"
+    # (per-run file names: several checks of one property may run at the same time, e.g. the seeded sweep)
+    wd = Path(os.environ.get("PYVC_OUT") or (VERIF / "work"))
+    if not os.environ.get("PYVC_OUT"):
+        os.makedirs(wd, exist_ok=True)
+    out = wd / f"{prop}_bounded_{os.getpid()}.json"
     if out.exists():
         out.unlink()
     cmd = [RT_PY, str(rt), "bounded", prop, "--tier", tier, "--seed", str(seed), "--out", str(out)]
     if functions:
         cmd += ["--functions", ",".join(functions)]
-    log = VERIF / "work" / f"{prop}_bounded.log"
+    log = wd / f"{prop}_bounded_{os.getpid()}.log"
     try:
         # output goes to a file, not a pipe: worker processes that outlive the runtime layer must not block us
         with open(log, "w") as lf:
@@ -137,6 +141,11 @@ def run_bounded(prop, tier, seed, functions=None):
         return {"error": f"runtime layer exited with {r.returncode} and wrote nothing:\n" + (r.stdout + r.stderr)[-2000:],
                 "standins": []}
     res = json.load(open(out))
+    for f_ in (out, log):
+        try:
+            f_.unlink()
+        except OSError:
+            pass
     if r.returncode not in (0, 1) and not res.get("error"):
         res["error"] = f"runtime layer exited with {r.returncode}:\n" + (r.stdout + r.stderr)[-2000:]
     return res
